@@ -29,17 +29,20 @@ def ssInRange (amp : Nat) (decimals amounts : List Nat) (offerIdx offer : Nat) :
   amounts.all (fun a => a ≤ 10 ^ 30)
 
 /-- exact gross output of a swap, in units of 10^-6 of the highest-precision unit: (exact, reserveK) -/
-def exactOutK (amp : Nat) (decimals amounts : List Nat) (offerIdx askIdx offer : Nat) : Nat :=
+def exactOutKShift (dShiftUnits : Nat) (amp : Nat) (decimals amounts : List Nat) (offerIdx askIdx offer : Nat) : Nat :=
   let n := amounts.length
   let ann := amp * n
   let xs := (normBalances decimals amounts).map (· * SS_K)
   let maxP := (listMax decimals).getD 0
   let offerN := offer * 10 ^ (maxP - decimals.getD offerIdx 0) * SS_K
-  let d := Spec.dFloor ann xs
+  let d := Spec.dFloor ann xs - dShiftUnits * SS_K
   let others := (xs.zipIdx.filter (fun x => x.2 != askIdx)).map fun x =>
     if x.2 == offerIdx then x.1 + offerN else x.1
   let y := Spec.yFloor ann others d
   xs.getD askIdx 0 - y
+
+def exactOutK (amp : Nat) (decimals amounts : List Nat) (offerIdx askIdx offer : Nat) : Nat :=
+  exactOutKShift 0 amp decimals amounts offerIdx askIdx offer
 
 /-- C19: |quoted gross − exact| ≤ 2 output units + value of 2 offer units (+0.01 unit numerical slack) -/
 def monSsQuote (amp : Nat) (decimals amounts : List Nat) (offerIdx askIdx offer gross : Nat) : Verdict :=
@@ -59,11 +62,22 @@ def monSsQuote (amp : Nat) (decimals amounts : List Nat) (offerIdx askIdx offer 
              (gross * scale ≤ exact + tolKnown && exact ≤ gross * scale + tolKnown, "C19-quote-accuracy"),
              (gross * scale ≤ exact + tol && exact ≤ gross * scale + tol, "C19-quote-accuracy-minor")]
 
+/-- the gross output the ORIGINAL algorithm (the model of `compute_swap`, tied to the code by the `swapmath` stream)
+    computes for this pool state and offer; fees do not enter the gross output -/
+def origGross (amp : Nat) (decimals before : List Nat) (offerIdx askIdx offer : Nat) : Option Nat :=
+  let denoms := (List.range before.length).map fun i => "d" ++ toString i
+  let p : PoolInfo := { id := "m", denoms := denoms, lpDenom := "lp", decimals := decimals,
+                        assets := (denoms.zip before).map (fun x => ⟨x.1, x.2⟩), ptype := .stable amp,
+                        fees := ⟨0, 0, 0, []⟩, status := default }
+  match computeSwap p ⟨denoms.getD offerIdx "", offer⟩ (denoms.getD askIdx "") with
+  | .ok c => some (c.ret + c.swapFee + c.protocolFee + c.burnFee + c.extraFees)
+  | .error _ => none
+
 /-- C03: the exact invariant after the swap is at least the exact invariant before (compared at
     10^-6 of a highest-precision unit).  When it decreases, the cause is looked up: if the gross
     output is within (1 + C19 tolerance) ask units above the exact output — the output is rounded
     *up* (finding F-03) — the verdict is `C03-ss-rounding`, otherwise `C03-ss-invariant`. -/
-def monSsSwap (amp : Nat) (decimals before : List Nat) (offerIdx askIdx offer gross out : Nat) : Verdict :=
+def monSsSwapG (grossKnown : Bool) (amp : Nat) (decimals before : List Nat) (offerIdx askIdx offer gross out : Nat) : Verdict :=
   let n := before.length
   let ann := amp * n
   -- the offer is added and what leaves is subtracted, also when both are the same asset (a swap of an asset for
@@ -85,7 +99,31 @@ def monSsSwap (amp : Nat) (decimals before : List Nat) (offerIdx askIdx offer gr
   -- … or a relative decrease of D below 10^-9 (resolution of the D solver — one unit at the pool's
   -- precision — amplified on heavily depegged pools)
   if gross * scale ≤ exact + tolUnits * scale || (db - da) * 1000000000 ≤ db then some "C03-ss-rounding"
+  else
+  -- … or the resolution of D itself: the swap solves for the new balance against an INTEGER D (highest-precision
+  -- units) obtained by a Newton iteration stopped within one unit, i.e. up to two units below the exact invariant.  On a
+  -- heavily depegged pool the output is extremely sensitive to D (observed: 0.26 units of D = 4·10^5 output units on a
+  -- 4-asset pool with two nearly empty reserves), so the output is compared with the exact output for D − 2 units
+  let exactLowD := exactOutKShift 2 amp decimals before offerIdx askIdx offer
+  if gross * scale ≤ exactLowD + tolUnits * scale then some "C03-ss-rounding"
+  else
+  -- finding F-17: far outside the supported range (skew beyond 1000:1 — a heavily depegged pool whose invariant is much
+  -- smaller than its largest balance) the coefficient `c` of the y-solver, accumulated as ⌊c·D/(x·n)⌋ per asset, passes
+  -- through a small intermediate value (D²/(x·n) ≈ 10^7 when x ≫ D) whose floor costs 10^-8 relative precision; the
+  -- solver then solves ITS quadratic exactly (C19Y) but the output is off by that relative error of the reserve.
+  -- Class: out of range AND the gross output is exactly what the original algorithm computes (anything else is a violation)
+  let nb := normBalances decimals before
+  let mx := (listMax nb).getD 0
+  let mn := (listMin nb).getD 0
+  let outOfRange := !(mx ≤ 1000 * mn && 1 ≤ amp && amp ≤ 1000000)
+  let og := origGross amp decimals before offerIdx askIdx offer
+  -- (for a hop of a route only what LEFT the pool is observable: at most the original algorithm's gross output)
+  let asOriginal := if grossKnown then og == some gross else (match og with | some g => decide (gross ≤ g) | none => false)
+  if outOfRange && asOriginal then some "C03-ss-depegged-precision"
   else some "C03-ss-invariant"
+
+def monSsSwap (amp : Nat) (decimals before : List Nat) (offerIdx askIdx offer gross out : Nat) : Verdict :=
+  monSsSwapG true amp decimals before offerIdx askIdx offer gross out
 
 /-- C02 (stableswap): pool value per LP token, exact D / supply, never decreases through a deposit
     or a withdrawal beyond the stated granularity (D known to within two units); on the first
@@ -105,7 +143,16 @@ def monSsLp (amp : Nat) (decimals before after : List Nat) (supplyBefore supplyA
   else if nb.any (· == 0) then none else
   let db := Spec.dFloorScaled ann nb SS_K
   -- D1/S1 ≥ D0/S0 up to two units of D on either side
-  firstFail [(db * supplyAfter ≤ (da + 2 * SS_K) * supplyBefore + 2 * SS_K * supplyAfter, "C02-ss-dilution")]
+  if db * supplyAfter ≤ (da + 2 * SS_K) * supplyBefore + 2 * SS_K * supplyAfter then none else
+  -- cause: the LP minted is computed from the code's own D (`calculate_d_core` on the balances before and after).
+  -- Where that algorithm's value is more than two units away from the exact root (findings F-14 / F-15: rounding
+  -- cycles, 255 steps exhausted — typical for extreme skew) the dilution is the CONSEQUENCE of those recorded
+  -- findings (class `C02-ss-dilution-d-inaccurate`); with both values accurate it is a violation of its own
+  let off (xs : List Nat) : Bool :=
+    match calculateDCore amp xs xs.length with
+    | .ok dm => decide (absDiff dm (Spec.dFloor ann xs) > 2)
+    | .error _ => true
+  if off nb || off na then some "C02-ss-dilution-d-inaccurate" else some "C02-ss-dilution"
 
 /-- one step of the integer Newton iteration of `calculate_d_core`, with unbounded integers (no
     overflow): `xs` are the balances as passed to `calculate_d_core` -/
@@ -163,7 +210,7 @@ def monSsPoolD (amp : Nat) (decimals before after : List Nat) : Verdict :=
   | [i], [j] =>
     let offer := after.getD i 0 - before.getD i 0
     let out := before.getD j 0 - after.getD j 0
-    monSsSwap amp decimals before i j offer out out
+    monSsSwapG false amp decimals before i j offer out out
   | [], [_] => some "C03-ss-invariant"
   | _, _ => none
 
